@@ -6,7 +6,7 @@ import json
 from .geom import in_threads
 from .tlc import run_tlc, write_cfg
 
-CHUNK = 30000
+CHUNK = 8000
 
 
 def validate(run, sc, trace_records, label="real"):
@@ -18,7 +18,10 @@ def validate(run, sc, trace_records, label="real"):
             r = dict(r, id=len(recs))
             recs.append(r)
             origin.append(g)
-    stuck = _run_chunks(run, sc, recs, label)
+    # vector records cost TLC more than field records: deal them round-robin so that the chunks are balanced
+    n_chunks = max(1, -(-len(recs) // CHUNK))
+    order = [r for c in range(n_chunks) for r in recs[c::n_chunks]]
+    stuck = _run_chunks(run, sc, order, label)
     for rid in sorted(stuck):
         r, g = recs[rid], origin[rid]
         key = f"recorded step {r['obj']} a={r['a']} b={r['b']} from {r['repr']}: {r['act']} {r['arg']}"
@@ -43,14 +46,14 @@ def _run_chunks(run, sc, recs, label):
         path.write_text(json.dumps(chunk))
         cfg = write_cfg(sc / f"rbt_{label}_{n}.cfg", init="TInit", next_="TNext",
                         constants={"MaxDepth": 1, "Object": "vector", "PointIdx": {1}, "Octants": {1}, "PartnerIdx": 2,
-                                   "MaxDegree": 2, "Scales": {2, 3}}, invariants=["Stuck", "Small32"])
+                                   "MaxDegree": 2, "Scales": {1, 2, 3, 4, 5, 6, 7}}, invariants=["Stuck"])
         res = run_tlc("RebaseTrace", cfg, sc, workers=2, env={"TRACE_FILE": str(path)}, allow_violation=False, heap_gb=6)
         path.unlink()
         return len(chunk), res
 
     stuck = set()
     jobs = [(one, (n, start)) for n, start in enumerate(range(0, len(recs), CHUNK))]
-    for n, (size, res) in enumerate(in_threads(jobs, max_threads=6)):
+    for n, (size, res) in enumerate(in_threads(jobs, max_threads=8)):
         run.add_tlc(res, f"trace validation {label} chunk {n}: {size} recorded real steps")
         here = {p["stuck"] for p in res.printed if isinstance(p, dict) and "stuck" in p}
         # every record is an initial state; every accepted record has exactly one successor
@@ -69,7 +72,7 @@ def selftest(run, sc, trace_records):
     if good is None or refused is None:
         return
     bad1 = copy.deepcopy(good)
-    bad1["post"]["a"][0] = [bad1["post"]["a"][0][0] + 1, 1]
+    bad1["post"]["a"][0] = [bad1["post"]["a"][0][0] + bad1["post"]["a"][0][1], bad1["post"]["a"][0][1]]
     bad2 = copy.deepcopy(refused)
     bad2["refused"] = False
     bad2["post_repr"] = bad2["arg"]
